@@ -882,7 +882,7 @@ func init() {
 	register(c12)
 
 	c11 := &Component{Name: "mapper_c11", Exec: exec,
-		Rule: "templates: name and label templates built from literal pieces (letters, digits, _, -, space, %, :) and references $n / ${n}, n in 0..12, incl. repeated, adjacent and out-of-range ones; patterns with 0..11 wildcards; one config holds the glob rule and (as a second config in the same history) its regex translation ^lit\\.([^.]*)...$; looked up with matching names whose captured components contain unicode and punctuation. Non-trivial: the template has >=2 references or a reference adjacent to a literal."}
+		Rule: "templates: name and label templates built from literal pieces (letters, digits, _, -, space, %, :) and references $n / ${n}, n in 0..12, incl. repeated, adjacent and out-of-range ones; patterns with 0..11 wildcards; one config holds the glob rule and (as a second config in the same history) its regex translation ^lit\\.([^.]*)...$; looked up with matching names whose captured components contain unicode and punctuation; every fourth history holds 2-4 sibling glob rules sharing prefixes (the search visits other rules' branches first), each with templates incl. references beyond its own wildcard count, and then their regex translations in the same order. Non-trivial: the template has >=2 references or a reference adjacent to a literal."}
 	c11.Gen = func(r *rand.Rand, tier string, emit Emit) {
 		n := 8000
 		if tier == "thorough" {
@@ -978,6 +978,49 @@ func init() {
 			t2, nt2 := gen(lits)
 			t3, nt3 := gen(lits)
 			run(t1, pat, []string{t2, t3}, nt1 || nt2 || nt3, fmt.Sprintf("wild%d", len(stars)))
+			if i%4 != 0 {
+				continue
+			}
+			// sibling rules: 2-4 glob rules over a small alphabet that share prefixes (so the search backtracks and
+			// visits branches of other rules first), each with its own templates incl. references beyond its own
+			// wildcard count; then the same rules translated to regex, in the same order (ordered mode: first match)
+			rs := randomRules(r, 2+r.Intn(3), []string{"a", "b", "c", "*", "*"}, 4)
+			gc, xc := &rawCfg{}, &rawCfg{}
+			for j, v := range rs {
+				tn, _ := gen([]string{"a", "x_", "9", "_"})
+				tl, _ := gen(lits)
+				g := rawRule{match: v.pat, name: fmt.Sprintf("n%d_", j) + tn, help: fmt.Sprintf("h%d", j), labels: [][2]string{{"l0", tl}, {"l1", "$1-$2-$3-$4"}}}
+				x := g
+				x.match = toRegex(v.pat)
+				x.matchType = sp("regex")
+				gc.rules = append(gc.rules, g)
+				xc.rules = append(xc.rules, x)
+			}
+			h := &mapperHist{kind: "none"}
+			var names []string
+			for _, v := range rs { // names that match a rule, their wildcards filled with the other rules' literals
+				for k := 0; k < 3; k++ {
+					var fs []string
+					for _, f := range strings.Split(v.pat, ".") {
+						if f == "*" {
+							fs = append(fs, pick(r, []string{"a", "b", "c", "a", "b", "c", "zz", "é", "*"}))
+						} else {
+							fs = append(fs, f)
+						}
+					}
+					names = append(names, strings.Join(fs, "."))
+				}
+			}
+			names = append(names, randomName(r, []string{"a", "b", "c", "zz"}, 4))
+			h.load(gc)
+			for _, nm := range names {
+				h.get(0, nm)
+			}
+			h.load(xc)
+			for _, nm := range names {
+				h.get(0, nm)
+			}
+			emit(h.op(), true, "siblings")
 		}
 	}
 	register(c11)
